@@ -2142,6 +2142,20 @@ fn gen_hist(rng: &mut Rng, keys: &[String], case: u64) -> Hist {
     Hist { causal: rng.gen_bool(0.3), phases, crashes }
 }
 
+/// A hot key: 1100-2600 writes of one key (and a few of a shard neighbour) before the crash, so that the recovered log of one
+/// shard is far longer than any mailbox, batch or window a node might bound, then a write of the same key after the restart.
+fn gen_long_hist(rng: &mut Rng, keys: &[String], case: u64) -> Hist {
+    let hot = keys[(case % 2) as usize].clone(); // keys[0], keys[1]: string keys on one shard
+    let n = [1100usize, 1500, 2600][rng.gen_range(0..3)];
+    let mut p0: Vec<HOp> = (0..n).map(|i| if i % 97 == 96 { HOp::Set { k: keys[1 - (case % 2) as usize].clone(), v: format!("n{}", i), ex: None } } else if i % 5 == 4 { HOp::Incr { k: hot.clone() } } else { HOp::Set { k: hot.clone(), v: format!("{}", i), ex: None } }).collect();
+    p0.push(HOp::Set { k: hot.clone(), v: "last-before-crash".into(), ex: None });
+    let p1 = vec![HOp::Set { k: hot.clone(), v: "after".into(), ex: None }, HOp::Set { k: keys[3].clone(), v: "elsewhere".into(), ex: None }];
+    // recovery from the log alone or with a checkpoint taken early (so that nearly the whole log is replayed on top of it)
+    let mask = [2u8, 4, 6, 3, 5, 7][(case % 6) as usize];
+    let crash = Crash { mask, chk_after: rng.gen_range(0..40), seg_chunks: rng.gen_range(1..=3), wal_files: rng.gen_range(1..=2), path: ["server", "manager"][rng.gen_range(0..2)].to_string() };
+    Hist { causal: false, phases: vec![p0, p1], crashes: vec![crash] }
+}
+
 /// Two keys that take string and hash commands alike: one on the shard of the first string keys, one alone on its shard.
 fn c08_mixed_keys(keys: &[String]) -> Vec<String> {
     let taken: BTreeSet<usize> = keys.iter().map(|k| shard_of(k)).collect();
@@ -2334,7 +2348,8 @@ pub fn stamps_leg(args: &Args) {
     let (n_flush, n_mixed, n_chk) = (args.get_u64("flush-histories", n * 3 / 10), args.get_u64("mixed-histories", n * 3 / 10), args.get_u64("checkpointed-hash-histories", n / 8));
     let directed = directed_hists(&keys, &mixed);
     let mut raw_seen: BTreeSet<String> = BTreeSet::new(); // signatures as found, before minimisation
-    let total = n + n_flush + n_mixed + n_chk + directed.len() as u64;
+    let n_long = args.get_u64("long-log-histories", if args.thorough() { 24 } else { 6 });
+    let total = n + n_flush + n_mixed + n_chk + directed.len() as u64 + n_long;
     for case in 0..total {
         let (space, h) = if case < n {
             ("plain", gen_hist(&mut rng, &keys, case + args.shard as u64))
@@ -2344,9 +2359,11 @@ pub fn stamps_leg(args: &Args) {
             ("mixed", gen_mixed_hist(&mut rng2, &keys, &mixed, case + args.shard as u64))
         } else if case < n + n_flush + n_mixed + n_chk {
             ("checkpointed-hash", gen_chk_hash_hist(&mut rng2, &keys, &mixed))
-        } else {
+        } else if case < n + n_flush + n_mixed + n_chk + directed.len() as u64 {
             let d = &directed[(case - n - n_flush - n_mixed - n_chk) as usize];
             (d.0, d.1.clone())
+        } else {
+            ("long-log", gen_long_hist(&mut rng2, &keys, case + args.shard as u64))
         };
         rep.count(&format!("space:{}", space));
         rep.evaluations += 1;
